@@ -194,6 +194,26 @@ func writeEvidence(path, prop, tier string, cfg *PropConfig, reps []*FuncReport,
 		"not_decided": cfg.NotDecided, "engine_warnings": warnings, "engine_errors": res.EngineErrors,
 		"explanation": "contract-based deductive verification: weakest-precondition style symbolic execution of go/ssa of the functions listed, callees replaced by contracts, loops by invariants; each obligation raced on z3 4.8.12 / z3 5.1.0 / cvc5 1.0",
 	}
+	vac := map[string]int{"checked": 0, "satisfiable": 0, "inconclusive_within_3s": 0, "contradictory": 0}
+	for _, r := range reps {
+		for _, o := range r.Obls {
+			if o.Kind != "vacuity" {
+				continue
+			}
+			vac["checked"]++
+			switch o.Result {
+			case "sat":
+				vac["satisfiable"]++
+			case "unsat":
+				vac["contradictory"]++
+			default:
+				vac["inconclusive_within_3s"]++
+			}
+		}
+	}
+	cov["vacuity_guards"] = vac
+	cov["bounded"] = []string{}
+	cov["bounded_note"] = "no obligation of this check is bounded: loops are cut with invariants / step relations, Map.Walk and Go map ranges are modelled for an arbitrary number of entries"
 	for k, v := range res.Extras {
 		cov[k] = v
 	}
